@@ -114,6 +114,22 @@ fn attempt<A: Subject + AllPairs>(op: &str, a: &Spec, grow: usize, operand_ty: u
                 Some(Err(_)) => Outcome::ReturnedErr,
             }))
         }
+        // absolute, extreme targets (`grow` counts down from usize::MAX): arithmetic on the requested length must not wrap
+        "resize_abs" | "sign_extend_abs" => {
+            let mut x = av.clone();
+            let target = usize::MAX - grow;
+            let sx = op == "sign_extend_abs";
+            (Expect::Panic, guarded(move || {
+                if sx {
+                    x.sign_extend(target)
+                } else {
+                    x.resize(target, fill(pattern, 0))
+                }
+                Outcome::Returned(lc(&x))
+            }))
+        }
+        "zeros_abs" => (Expect::Panic, guarded(|| Outcome::Returned(lc(&A::zeros(usize::MAX - grow))))),
+        "ones_abs" => (Expect::Panic, guarded(|| Outcome::Returned(lc(&A::ones(usize::MAX - grow))))),
         "push" => {
             let mut x = av.clone();
             (Expect::Panic, guarded(move || {
@@ -339,6 +355,14 @@ pub fn run(ctx: &mut Ctx) {
                 }
             }
         }
+        for op in ["resize_abs", "sign_extend_abs", "zeros_abs", "ones_abs"] {
+            for back in [0usize, 1, 2, 6, 7, 8, 14, 15, 16, 30, 31, 32, 62, 63, 64, 65, 126, 127, 128, 129, usize::MAX / 2, usize::MAX - (1 << 40)] {
+                for (n0, pat) in [(0usize, 0usize), (1, 1), (cap, 1), (cap / 2, 0)] {
+                    let a = Spec::set(ty, vec![true; n0]);
+                    judge(ctx, &Case::new("overflow").with("a", a.enc()).with("op", op).with("grow", back).with("oty", 0).with("index", 0).with("pat", pat), "W4-extreme-lengths");
+                }
+            }
+        }
         for oty in 0..NTYPES {
             for grow in [1usize, 2, 8, 64, 65] {
                 // pattern 0: all zeros, 1: all ones, 2: only bit 0 set, 3: only the top bit set
@@ -393,5 +417,5 @@ pub const REQUIRED_C19: &[&str] = &[
     "op:zeros", "op:ones", "op:from_bytes", "op:from_binary", "op:from_hex", "op:read", "op:try_from_uint", "op:try_from_slice",
     "op:try_from_vector", "op:push", "op:resize", "op:append", "op:prepend", "op:insert", "op:extend", "op:collect",
     "op:get", "op:set", "op:copy_range_end", "op:split_off", "growth-at-len==capacity", "valid-edit-walks",
-    "fill-pattern:0", "fill-pattern:1", "fill-pattern:2", "fill-pattern:3",
+    "fill-pattern:0", "fill-pattern:1", "fill-pattern:2", "fill-pattern:3", "op:resize_abs", "op:sign_extend_abs", "op:zeros_abs",
 ];
